@@ -217,6 +217,52 @@ def check_configured_limits(out, stats):
         payload.Payload.max_decode_packets = saved
 
 
+def check_after_failure(out, stats):
+    """An encode() or decode() that fails leaves nothing behind: the next payload built or decoded anywhere in the
+    process is exactly its own packets."""
+    packet, payload = _mods()
+    good_lists = [[], [(4, 'public'), (2, None)], [(4, b'\x00\x01')], [(4, {'a': 1}), (4, 'x'), (6, None)]]
+    unserialisable = {'tags': {1, 2}}          # a set: accepted by the Packet constructor, refused by the JSON encoder
+    for pos in range(0, 3):
+        for nxt in good_lists:
+            bad = [(4, 'private-%d' % i) for i in range(pos)] + [(4, unserialisable)] + [(4, 'private-after')]
+            case = {'bad_at': pos, 'next': [[t, d] for t, d in nxt]}
+            stats['cases'] += 1
+            stats['nontrivial'] += 1
+            try:
+                payload.Payload(packets=[packet.Packet(t, data=d) for t, d in bad]).encode()
+                raised = False
+            except Exception:
+                raised = True
+            if not raised:
+                continue          # (what an unserialisable payload does is not this clause)
+            ref = codec.ref_payload_encode(nxt)
+            try:
+                got = payload.Payload(packets=[packet.Packet(t, data=d) for t, d in nxt]).encode()
+            except Exception as e:
+                got = 'raised %r' % (e,)
+            if got != ref:
+                out.append(_viol('framing_depends_on_earlier_failure', 'encode',
+                                 'after an encode() that failed at packet #%d, the payload of %r is %r, want %r' % (pos, nxt, got, ref),
+                                 {'harness': 'after_failure', **case}, (0, pos)))
+    for garbage in ('x', '4ok\x1ex', 'b!', '\x1e'.join(['4m'] * 17)):
+        for nxt in good_lists[1:]:
+            ref = codec.ref_payload_encode(nxt)
+            stats['cases'] += 1
+            try:
+                payload.Payload(encoded_payload=garbage)
+            except Exception:
+                pass
+            try:
+                p = payload.Payload(encoded_payload=ref)
+                ok = len(p.packets) == len(nxt) and all(_same_packet(q, t, d) for q, (t, d) in zip(p.packets, nxt))
+            except Exception:
+                ok = False
+            if not ok:
+                out.append(_viol('decode_depends_on_earlier_failure', 'decode', 'after decoding %r failed, %r no longer decodes to %r' % (garbage[:20], ref, nxt),
+                                 {'harness': 'after_failure', 'garbage': garbage}, (0, 0)))
+
+
 def _work(chunk):
     kind, items = chunk
     out = []
@@ -234,6 +280,7 @@ def _work(chunk):
                 stats['nontrivial'] += 1 if pk else 0
         elif kind == 'limits':
             check_configured_limits(out, stats)
+            check_after_failure(out, stats)
         elif kind == 'strings':
             for prefix, n in items:
                 for t in itertools.product(ALPHA, repeat=n):
@@ -324,7 +371,7 @@ def run(ctx):
         'rule': 'encoder: every packet list of length <= %d over 8 representative packets, cyclic '
                 'families of every length 0..18 over 16 packets, uniform lists up to 100 (lists of <= 4 packets holding binary data also from packet objects already encoded for other channels, 6 encode histories), each also as '
                 'd=quote and d=quote_plus form bodies; decoder: every string of length <= %d over the '
-                '14-symbol alphabet %r plus the complete slice {%s}; plus separator/limit probes 0..19, bodies around the limit for 9 other configured values of Payload.max_decode_packets (1..40) and '
+                '14-symbol alphabet %r plus the complete slice {%s}; plus separator/limit probes 0..19, bodies around the limit for 9 other configured values of Payload.max_decode_packets (1..40), payloads built / decoded right after an encode() or decode() that failed, and '
                 'bodies of 1000/100000 segments or brackets. Non-trivial = more than one symbol / non-empty list.'
                 % (3 if ctx.quick else 4, full, ''.join(ALPHA), slice_desc),
         'samples': ['4hello\x1e4\x1e4{"a":[1,"x"]}\x1ebAAH/', 'd=4%1E4', '9\x1eb!', '4\x1e' * 16 + '4'],
@@ -349,6 +396,8 @@ def replay(ctx, payload):
         check_list([(t, d) for t, d in r['packets']], out, st)
     elif r['harness'] == 'limits':
         check_configured_limits(out, st)
+    elif r['harness'] == 'after_failure':
+        check_after_failure(out, st)
     else:
         check_string(r['s'], out, st, {})
     for v in out:
